@@ -283,7 +283,11 @@ class RenderShift(Stream):
             from musiclang import Score
             j = case["t"]["deg"] + 12 * case["t"]["oct"] + case["k"]
             try:
-                tr = sg.merge_rows(sg.impl_rows(Score([c.transpose(j) for c in sc.chords])))
+                trs = Score([c.transpose(j) for c in sc.chords])
+                tr = sg.merge_rows(sg.impl_rows(trs))
+                _ = str(trs), [c.tonality.degree for c in trs.chords]
+                if any(not (0 <= c.tonality.degree < 12) for c in trs.chords) or Score.from_str(str(trs)) != trs:
+                    return {"exc": "transposed chord has no readable text / an unnormalised degree", "base": base}
             except AttributeError:
                 tr = None                     # a chord without a tonality has no degree to move
             return {"base": base, "mod": mod, "oct": octv, "tr": tr, "j": j, "tracks": list(dict.fromkeys(nm for c in case["score"] for nm, _ in c["parts"]))}
